@@ -105,6 +105,9 @@ def run(res, tier, seed, driver_ok):
         # ---- lookAt
         vertical = rnd.random() < 0.05
         tgt = a[:3] + (np.array([0, 0, rnd.choice([-1, 1]) * rnd.uniform(0.5, 5)]) if vertical else G.axis(rnd) * rnd.uniform(0.5, 5))
+        if not vertical and rnd.random() < 0.08:      # ALMOST above / below the viewer: a lateral offset far below any 'near zero' threshold, but not zero
+            ph_ = rnd.uniform(0, 2 * math.pi); eps_ = rnd.choice([5e-7, 1e-7, 2e-8])
+            tgt = a[:3] + np.array([eps_ * math.cos(ph_), eps_ * math.sin(ph_), rnd.choice([-1, 1]) * rnd.uniform(0.5, 5)])
         vertical = bool(np.linalg.norm(np.cross([0, 0, 1.0], tgt - a[:3])) < 1e-9 * np.linalg.norm(tgt - a[:3]))
         Tg = tm([tgt[0], tgt[1], tgt[2], 0, 0, 0])
         try:
